@@ -220,7 +220,7 @@ def _iface_gap(D):
 
 
 def run_generated(ctx, batch):
-    n_docs = ctx.n(140, 900)
+    n_docs = ctx.n(500, 4000)
     for k in range(n_docs):
         if ctx.time_left() < 18:
             ctx.notes.append("generated documents cut short by the time budget at %d" % k)
@@ -297,7 +297,7 @@ def run_generated(ctx, batch):
 
 
 def run_invalid(ctx, batch):
-    n = ctx.n(3, 12)
+    n = ctx.n(6, 30)
     for label in sdl.INVALID_LABELS:
         done = 0
         tries = 0
